@@ -152,7 +152,10 @@ class _Generator(Generator):
                 [
                     'encoder_append_non_negative_binary_integer(',
                     '    encoder_p,',
-                    '    (uint64_t)(src_p->{} - {}),'.format(location, checker.minimum),
+                    # Subtract as unsigned, as the signed subtraction
+                    # may overflow for a value outside the range.
+                    '    (uint64_t)src_p->{} - (uint64_t){},'.format(location,
+                                                                    checker.minimum),
                     '    {});'.format(type_.number_of_bits)
                 ],
                 [
